@@ -49,7 +49,10 @@ def main(argv):
                 for l in v[1]:
                     print('      [%s] %s' % (c, l[:230]))
     print('%d refactorings, %d silent in all 20 checks' % (len(res), quiet))
-    json.dump({i: (sorted(b) if b is not None else None) for i, b, e in res}, open(os.path.join(CORPUS, 'RESULTS.json'), 'w'), indent=1, sort_keys=True)
+    path = os.path.join(CORPUS, 'RESULTS.json')
+    old = json.load(open(path)) if (argv[1:] and os.path.exists(path)) else {}      # a selective run updates its items only
+    old.update({i: (sorted(b) if b is not None else None) for i, b, e in res})
+    json.dump(old, open(path, 'w'), indent=1, sort_keys=True)
 
 
 if __name__ == '__main__':
